@@ -244,7 +244,7 @@ def run_real(runner, case_lines, timeout_per_batch=600, batch=200, workers=None)
     if not case_lines:
         return []
     workers = workers or int(os.environ.get("VERIF_WORKERS", "0")) or min(12, os.cpu_count() or 1)
-    batch = min(batch, max(25, -(-len(case_lines) // workers)))
+    batch = min(batch, max(4, -(-len(case_lines) // (4 * workers))))
     chunks = [case_lines[i:i + batch] for i in range(0, len(case_lines), batch)]
     if len(chunks) == 1 or workers <= 1:
         outs = [_run_real_chunk(runner, c, timeout_per_batch) for c in chunks]
